@@ -181,3 +181,85 @@ class Frame:
                 b = t["t"]
             else:
                 raise Unsupported("terminator %s" % k)
+
+
+class ScannerModel:
+    """unscanny::Scanner over a concrete short string, as an oracle for Frame: the documented semantics of the few
+    methods the lexer's scanner loops use (trusted base). Anything else is Unsupported (the rule then fails closed)."""
+
+    def __init__(self, text, extra=None):
+        self.text = text
+        self.pos = 0
+        self.extra = extra or {}
+
+    @staticmethod
+    def pattern(v):
+        if v is None:
+            raise Unsupported("scanner pattern is not a constant")
+        if v[0] == "int":
+            return chr(v[1])
+        if v[0] == "str":
+            return bytes(v[1], "utf-8").decode("unicode_escape") if "\\" in v[1] else v[1]
+        raise Unsupported("scanner pattern %s" % (v[0],))
+
+    def __call__(self, fr, callee, args, t):
+        name = callee.rsplit("::", 1)[-1]
+        if "unscanny::Scanner" in callee:
+            if name == "eat":
+                if self.pos >= len(self.text):
+                    return ("none",)
+                c = self.text[self.pos]
+                self.pos += 1
+                return ("some", ("int", ord(c)))
+            if name == "peek":
+                if self.pos >= len(self.text):
+                    return ("none",)
+                return ("some", ("int", ord(self.text[self.pos])))
+            if name in ("eat_if", "at", "eat_until"):
+                pat = self.pattern(args[1] if len(args) > 1 else None)
+                rest = self.text[self.pos:]
+                if name == "eat_until":
+                    i = rest.find(pat)
+                    self.pos = len(self.text) if i < 0 else self.pos + i
+                    return ("unit",)
+                hit = rest.startswith(pat)
+                if hit and name == "eat_if":
+                    self.pos += len(pat)
+                return ("int", 1 if hit else 0)
+            if name == "scout":
+                n = args[1] if len(args) > 1 else None
+                if n is None or n[0] != "int":
+                    raise Unsupported("scout with a non-constant offset")
+                k = n[1]
+                if k >= 2 ** 63:
+                    k -= 2 ** 64
+                idx = self.pos + k if k >= 0 else self.pos + k
+                if 0 <= idx < len(self.text):
+                    return ("some", ("int", ord(self.text[idx])))
+                return ("none",)
+            if name == "uneat":
+                if self.pos > 0:
+                    self.pos -= 1
+                    return ("some", ("int", ord(self.text[self.pos])))
+                return ("none",)
+            if name == "done":
+                return ("int", 1 if self.pos >= len(self.text) else 0)
+            if name == "cursor":
+                return ("int", self.pos)
+            raise Unsupported("scanner method %s" % name)
+        for suffix, fn in self.extra.items():
+            if callee.endswith(suffix):
+                return fn(fr, args, t)
+        if callee.endswith("PartialEq>::eq") or callee.endswith("PartialEq>::ne"):
+            vals = []
+            for a in args[:2]:
+                n = 0
+                while a is not None and a[0] == "ref" and n < 4:
+                    a = fr.read_place(a[1])
+                    n += 1
+                if a is None:
+                    raise Unsupported("comparison of an unknown value")
+                vals.append(a)
+            same = vals[0] == vals[1]
+            return ("int", 1 if (same == callee.endswith("::eq")) else 0)
+        raise Unsupported("call to %s" % callee)
